@@ -1,6 +1,8 @@
 #!/bin/bash
 # entry point: ./verif.sh check <Cxx> [--tier quick|thorough] | replay <file> | all [--tier ..]
 cd "$(dirname "$0")"
+# reproducible runs: python's per-process hash randomisation changes incidental orderings (and with them the solver's search); pin it
+export PYTHONHASHSEED="${PYTHONHASHSEED:-0}"
 [ -x .venv/bin/python ] || ./setup.sh >/dev/null
 cmd="$1"; shift
 case "$cmd" in
